@@ -1,4 +1,3 @@
-(* WIP *)
 (* C16 — the specification monitor mon16 on the traces of the life-cycle model: every violation it
    reports with a safety tag is a known finding.  Part 1: exact effect of every operation on the
    will-relevant part of the state (object fields id / version / expiry / open / phase / will, the
@@ -2086,13 +2085,13 @@ Qed.
 Lemma cancel_delay_pos k p z : 0 < minN (delay0 p) (if cp_ver p =? 5 then req0 k p else z) -> 0 < stored_delay p.
 Proof.
   unfold delay0, stored_delay, req0, minN. destruct (cp_ver p =? 5); cbn [negb].
-  2:{ destruct (0 <? z); lia. }
+  2:{ destruct (0 <? z) eqn:Z0; [lia|]. apply N.ltb_ge in Z0. lia. }
   destruct (cp_seiflag p); cbn [andb].
   - destruct (cp_sei p <? cp_willdelay p) eqn:LT.
     + destruct (cp_willdelay p <? capN k (cp_sei p)) eqn:L2; [intros _|intro H; apply (capN_pos k), H].
       apply N.ltb_lt in L2. apply (capN_pos k). lia.
-    + destruct (cp_willdelay p <? capN k (cp_sei p)); lia.
-  - destruct (cp_willdelay p <? 0); lia.
+    + destruct (cp_willdelay p <? capN k (cp_sei p)) eqn:L2; [lia|]. apply N.ltb_ge in L2. lia.
+  - destruct (cp_willdelay p <? 0) eqn:L2; [lia|]. lia.
 Qed.
 
 Lemma ki_accept k m s h0 s' outs b c now p e sp :
@@ -2203,6 +2202,8 @@ Proof.
                  destruct ST as [PD _]. rewrite PD in KP. split; [exact KP|]. intro H. contradiction.
         -- (* any other connection *)
            destruct (wk_obj_fwd s s' _ oy (OTH c' EQ NR) GY) as (oy' & GY' & EY). destruct (wk_wkn _ _ EY) as [EK EWl].
+           assert (OBJ : exists o', get_obj (x_conn y) (st_objs s') = Some o' /\ wkn o' = wkn oy /\ (o_will o' = o_will oy \/ w_flag (o_will o') = false))
+             by (exists oy'; rewrite YC; auto).
            assert (NM : memN c' cl = false).
            { destruct (memN c' cl) eqn:M; [|reflexivity]. destruct (CLS c' M) as (eo & CO & EE & _). destruct (NR eo CO EE). }
            assert (MK : m16_mark b y1 = y1).
@@ -2214,21 +2215,22 @@ Proof.
              rewrite <- (pc_id _ _ _ _ _ _ PY), BE in AO. apply (NR oy); [unfold client_of; rewrite AO; exact GY|symmetry; apply (get_obj_conn _ _ _ GY)]. }
            destruct (beq_bytes (x_id y) e && negb (x_conn y =? c)) eqn:CND.
            2:{ assert (E1 : y1 = y) by (unfold y1, m16_takeover; rewrite CND; reflexivity). rewrite E1.
-               apply (pc_frame k s s' h0 b y oy py PY); [exists oy'; auto|exact SUBY|exact VS]. }
+               apply (pc_frame k s s' h0 b y oy py PY); [exact OBJ|exact SUBY|exact VS]. }
            apply andb_true_iff in CND. destruct CND as [BE _].
            assert (YCL : x_open y = false) by (destruct (x_open y) eqn:XY; [rewrite (OPEN_NE eq_refl) in BE; discriminate|reflexivity]).
            assert (NSE : ~ srcE s' c').
            { apply (GONE c' oy GY). rewrite <- (pc_id _ _ _ _ _ _ PY). apply bb_eq, BE. }
            destruct (x_wst y) as [| | |t due0| | | |] eqn:XS;
-             try (assert (E1 : y1 = y) by (unfold y1, m16_takeover; rewrite XS; destruct (_ && _); reflexivity); rewrite E1;
-                  apply (pc_frame k s s' h0 b y oy py PY); [exists oy'; auto|exact SUBY|exact VS]).
+             try (assert (E1 : y1 = y) by (unfold y1, m16_takeover; rewrite XS; destruct (beq_bytes (x_id y) e && negb (x_conn y =? c)); reflexivity); rewrite E1;
+                  apply (pc_frame k s s' h0 b y oy py PY); [exact OBJ|exact SUBY|exact VS]).
            ++ rewrite ST in YCL. discriminate.
            ++ destruct ST as (PD & _). destruct (wkn_fields _ _ EK) as (_ & _ & _ & _ & KP).
               assert (E1 : y1 = set_wst y (if cp_clean p then WFailed else WCancelled)).
-              { unfold y1, m16_takeover. rewrite XS, BE. destruct (negb (x_conn y =? c)); [|exfalso]. 
-                - cbn [andb]. destruct (cp_clean p); reflexivity.
-                - rewrite YC in *. destruct (c' =? c) eqn:E2; [apply N.eqb_eq in E2; congruence|]. cbn in *. congruence. }
-              rewrite E1. apply (pc_frame2 k s s' h0 b y oy py oy' _ PY); try rewrite YC; auto.
+              { unfold y1, m16_takeover. rewrite XS, BE.
+                assert (NC : negb (x_conn y =? c) = true) by (rewrite YC; destruct (c' =? c) eqn:E2; [apply N.eqb_eq in E2; congruence|reflexivity]).
+                rewrite NC. cbn [andb]. destruct (cp_clean p); reflexivity. }
+              rewrite E1. pose proof GY' as GY'y. rewrite <- YC in GY'y.
+              refine (pc_frame2 k s s' h0 b y oy py oy' _ PY GY'y EK (or_introl EWl) SUBY VS _ _).
               ** intro H. congruence.
               ** unfold status_ok. cbn [x_wst set_wst x_with x_conn]. rewrite YC. destruct (cp_clean p).
                  --- split; [congruence|]. intro H. contradiction.
@@ -2243,6 +2245,149 @@ Proof.
       destruct EXS as (oc & GC). destruct (KO c' oc GC) as (y & FY). rewrite FY. eexists. reflexivity.
   - rewrite VV. unfold lost_viols. apply flat_map_tag. intros x _.
     destruct (beq_bytes (x_id x) e && negb (x_conn x =? c) && cp_clean p && negb (published_in [] (x_conn x))) eqn:CND; [|constructor].
-    destruct (x_wst x); try constructor. constructor; [|constructor]. split; [reflexivity|]. right. right. right. right. split; [reflexivity|].
+    destruct (x_wst x); try (constructor; fail). constructor; [|constructor]. split; [reflexivity|]. right. right. right. right. split; [reflexivity|].
     exists c, now, p, true, e. split; [exact BOP|]. apply andb_true_iff in CND. destruct CND as [CND _]. apply andb_true_iff in CND. tauto.
+Qed.
+
+(* =====================================================================================
+   Part 4: the step theorem and the theorem over all histories *)
+Theorem m16_step_KI k m s h0 o :
+  KI k m s h0 -> sane_op s o ->
+  KI k (fst (m16_step k (length h0) m (obs_of (tstep_of k s o)))) (fst (step k s o)) (h0 ++ [obs_of (tstep_of k s o)]) /\
+  Forall (fun v => v_step v = length h0 /\ expl k (h0 ++ [obs_of (tstep_of k s o)]) (obs_of (tstep_of k s o)) v)
+         (snd (m16_step k (length h0) m (obs_of (tstep_of k s o)))).
+Proof.
+  intros K SO. pose proof (ki_inv _ _ _ _ K) as V. pose proof (ki_wwf _ _ _ _ K) as WW.
+  pose proof (step_inv k s o V) as V'. pose proof (step_wwf k s o V WW) as WW'.
+  pose proof (fresh_step k s o h0 (proj1 V) (ki_fresh _ _ _ _ K)) as KF'.
+  pose proof (step_msum k s o V (ww_nodup s WW)) as MS.
+  set (b := obs_of (tstep_of k s o)) in *.
+  assert (BF : b_op b = o /\ b_outs b = snd (step k s o) /\ b_pre b = snap_of s) by (subst b; unfold obs_of, tstep_of; cbn; auto).
+  destruct BF as (BOP & BO & BPRE). clearbody b.
+  destruct (step k s o) as [s' outs]. cbn [fst snd] in *.
+  destruct MS as [WS TW WO CL QO|c now ob normal EO R M|c now ob -> G PH M|now -> WC TI TN WO CL|c now p e sp -> HS MU SC MA]; cbn [fst snd] in *.
+  - destruct (ki_quiet k m s h0 o s' outs b K BOP BO BPRE WS TW WO CL QO V' WW' KF') as [K' E]. split; [exact K'|rewrite E; constructor].
+  - apply (ki_end k m s h0 o s' outs b c now ob normal K SO BOP BO BPRE EO R M V' WW' KF').
+  - apply (ki_teardown k m s h0 s' outs b c now ob K BOP BO G PH M V' WW' KF').
+  - apply (ki_tick k m s h0 now s' outs b K BOP BO WC TI WO CL V' WW' KF').
+  - apply (ki_accept k m s h0 s' outs b c now p e sp K SO BOP BO BPRE HS MU SC MA V' WW' KF').
+Qed.
+
+(* For every history of operations whose DISCONNECT properties and will delays are decodable
+   (sane_ops), every violation the C16 monitor reports on the model's trace either carries one of the
+   liveness tags that this theorem does not cover (uncovered: V16_missing, V16_missing_takeover,
+   V16_late, V16_retain) or is a known finding (kf_of names the predicate). *)
+Theorem mon16_explained k ops : sane_ops k init ops ->
+  Forall (good k (map obs_of (trace k init ops))) (mon16 k (map obs_of (trace k init ops))).
+Proof.
+  intro S. unfold mon16.
+  apply (run_mon_hist k (m16_step k) (good k) (KI k)) with (h0 := []); [|apply KI_init|exact S].
+  intros m s h0 o K SO. destruct (m16_step_KI k m s h0 o K SO) as [K' F]. split; [exact K'|].
+  eapply Forall_impl; [|exact F]. intros v [VS E] r. cbn beta in *.
+  apply (expl_good k _ (obs_of (tstep_of k s o)) v); rewrite VS; [rewrite upto_app; exact E|apply nth_obs_app].
+Qed.
+
+(* the three clauses without any finding are never violated *)
+Lemma kf_none_tag k h v : (v_tag v = V16_unexpected \/ v_tag v = V16_after_normal \/ v_tag v = V16_content) -> kf_of k h v = None.
+Proof.
+  intro T. unfold kf_of, KF_C16_takeover_delayed, KF_C16_delay_uncapped, KF_C16_delay_fixed_at_connect, KF_C16_clean_reconnect, KF_C16_delayed_retain_gone.
+  destruct T as [T|[T|T]]; rewrite T; reflexivity.
+Qed.
+
+Theorem mon16_safety_clauses k ops : sane_ops k init ops ->
+  Forall (fun v => v_tag v <> V16_unexpected /\ v_tag v <> V16_after_normal /\ v_tag v <> V16_content)
+         (mon16 k (map obs_of (trace k init ops))).
+Proof.
+  intro S. eapply Forall_impl; [|apply (mon16_explained k ops S)]. intros v [U|KFN].
+  - repeat split; intro T; rewrite T in U; discriminate U.
+  - repeat split; intro T; apply KFN, kf_none_tag; auto.
+Qed.
+
+(* =====================================================================================
+   Part 5: the order of the delayed-will table is immaterial.  sendDelayedLWT ranges over a Go map, so
+   the real broker handles the due entries of one tick in an arbitrary order; the replay engine
+   (Session/LifeEngine.v [reorder_wills]) rearranges the model's table into the observed order before a
+   tick.  The rearrangement is a permutation, and the invariants of this file (hence the theorems
+   above, which hold from every state satisfying [KI]) do not depend on the order of the table. *)
+From Coq Require Import Permutation.
+From MV Require Import Session.LifeEngine.
+
+Lemma perm_filter_split {A} (p : A -> bool) (l : list A) : Permutation (filter p l ++ filter (fun x => negb (p x)) l) l.
+Proof.
+  induction l as [|a r IH]; cbn; [constructor|]. destruct (p a); cbn.
+  - constructor. exact IH.
+  - apply Permutation_sym. apply Permutation_cons_app. apply Permutation_sym. exact IH.
+Qed.
+
+Lemma fm_ext_in {A B} (f g : A -> list B) l : (forall a, In a l -> f a = g a) -> flat_map f l = flat_map g l.
+Proof. intro H. induction l as [|a r IH]; cbn; [reflexivity|]. rewrite (H a (or_introl eq_refl)), IH; [reflexivity|]. intros b I. apply H. right. exact I. Qed.
+
+Lemma nodup_dedupN l : NoDup (dedupN l).
+Proof.
+  induction l as [|c r IH]; cbn; [constructor|]. constructor; [|apply NoDup_filter, IH].
+  intro H. apply filter_In in H. destruct H as [_ H]. rewrite N.eqb_refl in H. discriminate.
+Qed.
+
+Lemma reorder_perm_gen {A} (key : A -> N) (ord : list N) : NoDup ord -> forall l : list A,
+  Permutation (flat_map (fun c => filter (fun e => key e =? c) l) ord ++ filter (fun e => negb (memN (key e) ord)) l) l.
+Proof.
+  induction 1 as [|c r NI ND IH]; intro l.
+  - cbn [flat_map app]. rewrite (filter_ext_in _ (fun _ => true)); [|intros a _; destruct (memN (key a) []) eqn:M; [apply memN_true in M; destruct M|reflexivity]].
+    clear. induction l; cbn; [constructor|constructor; assumption].
+  - cbn [flat_map]. rewrite <- app_assoc.
+    set (l' := filter (fun e => negb (key e =? c)) l).
+    assert (E1 : flat_map (fun c0 => filter (fun e => key e =? c0) l) r = flat_map (fun c0 => filter (fun e => key e =? c0) l') r).
+    { apply fm_ext_in. intros c0 I0. subst l'. clear - NI I0. induction l as [|a t IHl]; cbn; [reflexivity|].
+      destruct (key a =? c0) eqn:E0; destruct (key a =? c) eqn:Ec; cbn; rewrite ?E0, ?IHl; try reflexivity.
+      apply N.eqb_eq in E0, Ec. exfalso. apply NI. congruence. }
+    assert (E2 : filter (fun e => negb (memN (key e) (c :: r))) l = filter (fun e => negb (memN (key e) r)) l').
+    { subst l'. clear. induction l as [|a t IHl]; cbn; [reflexivity|]. rewrite used_cons_l.
+      destruct (key a =? c); cbn; [exact IHl|]. destruct (memN (key a) r); cbn; rewrite IHl; reflexivity. }
+    rewrite E1, E2. eapply Permutation_trans; [apply Permutation_app_head, IH|].
+    subst l'. apply (perm_filter_split (fun e => key e =? c) l).
+Qed.
+
+Lemma reorder_wills_perm order s : Permutation (st_wills (reorder_wills order s)) (st_wills s).
+Proof. unfold reorder_wills. cbn [st_wills set_wills]. apply (reorder_perm_gen (fun e => d_conn (snd e)) _ (nodup_dedupN order)). Qed.
+
+Lemma srcE_perm s l c : Permutation l (st_wills s) -> (srcE (set_wills s l) c <-> srcE s c).
+Proof.
+  intro PM. unfold srcE. cbn [st_wills set_wills]. split; intros (id & d & I & E); exists id, d; (split; [|exact E]).
+  - apply (Permutation_in _ PM), I.
+  - apply (Permutation_in _ (Permutation_sym PM)), I.
+Qed.
+
+Lemma KI_perm k m s h0 l : KI k m s h0 -> Permutation l (st_wills s) -> KI k m (set_wills s l) h0.
+Proof.
+  intros [V [ND WD] NK KX KO KF] PM.
+  assert (IN : forall x, In x l <-> In x (st_wills s)).
+  { intro x. split; [apply (Permutation_in _ PM)|apply (Permutation_in _ (Permutation_sym PM))]. }
+  split; auto.
+  - destruct V as [[U N R O H] X]. split; [split; assumption|exact X].
+  - split; cbn [st_wills set_wills st_objs].
+    + apply (Permutation_NoDup (Permutation_map fst (Permutation_sym PM)) ND).
+    + intros id d I. apply WD, IN, I.
+  - intros c x F. destruct (KX c x F) as (o & p & [G PA I V1 OV CL WI DL OP LV FL EN VW SN ST]). exists o, p.
+    split; auto; cbn [st_wills set_wills st_objs].
+    + intros id d II DC. apply (EN id d); [apply IN, II|exact DC].
+    + pose proof (srcE_perm s l (x_conn x) PM) as SE. unfold status_ok in *. destruct (x_wst x).
+      * destruct ST as [A B]. split; [exact A|]. intro H. apply B, SE, H.
+      * exact ST.
+      * exact ST.
+      * destruct ST as (A & B & C). split; [exact A|split; [exact B|]]. intros id d II DC. apply (C id d); [apply IN, II|exact DC].
+      * destruct ST as [A B]. split; [exact A|]. intro H. apply B, SE, H.
+      * destruct ST as [A B]. split; [exact A|]. intro H. apply B, SE, H.
+      * intros [AR|H]; [apply ST; left; exact AR|apply ST; right; apply SE, H].
+      * destruct ST as [A B]. split; [exact A|]. intro H. apply B, SE, H.
+Qed.
+
+(* the theorem from any state that satisfies the invariant (in particular after the table has been
+   rearranged, [KI_perm]) *)
+Theorem mon16_explained_from k m s h0 ops : KI k m s h0 -> sane_ops k s ops ->
+  Forall (good k (h0 ++ map obs_of (trace k s ops))) (run_mon (m16_step k) (length h0) m (map obs_of (trace k s ops))).
+Proof.
+  intros K S. apply (run_mon_hist k (m16_step k) (good k) (KI k)); [|exact K|exact S].
+  intros m1 s1 h1 o K1 SO. destruct (m16_step_KI k m1 s1 h1 o K1 SO) as [K' F]. split; [exact K'|].
+  eapply Forall_impl; [|exact F]. intros v [VS E] r. cbn beta in *.
+  apply (expl_good k _ (obs_of (tstep_of k s1 o)) v); rewrite VS; [rewrite upto_app; exact E|apply nth_obs_app].
 Qed.
